@@ -70,6 +70,10 @@ pub mod capture {
     /// (item name, Debug rendering of its LIR instructions, one per line)
     pub static LIR: Mutex<Vec<(String, Vec<String>)>> = Mutex::new(Vec::new());
 
+    /// (item name, [(block label, Debug rendering of its instructions)]) - the LIR with its block structure
+    pub static LIR_BLOCKS: Mutex<Vec<(String, Vec<(String, Vec<String>)>)>> =
+        Mutex::new(Vec::new());
+
     /// (address, name, bytes as stored by the runtime) of every registered constant
     pub static CONSTANTS: Mutex<Vec<(usize, String, Vec<u8>)>> =
         Mutex::new(Vec::new());
@@ -89,6 +93,10 @@ pub mod capture {
         LIR.lock().unwrap().push((name.to_string(), instructions));
     }
 
+    pub fn lir_blocks(name: &str, blocks: Vec<(String, Vec<String>)>) {
+        LIR_BLOCKS.lock().unwrap().push((name.to_string(), blocks));
+    }
+
     pub fn constant(addr: usize, name: String, bytes: Vec<u8>) {
         CONSTANTS.lock().unwrap().push((addr, name, bytes));
     }
@@ -105,6 +113,7 @@ pub mod capture {
         CLIF.lock().unwrap().clear();
         LIR.lock().unwrap().clear();
         CONSTANTS.lock().unwrap().clear();
+        LIR_BLOCKS.lock().unwrap().clear();
         DATA.lock().unwrap().clear();
         SYMBOLS.lock().unwrap().clear();
     }
